@@ -105,7 +105,9 @@ def reads_frame_obligations(rep, prop="C16"):
             bad = [f"{rel}:{fn}:{line} ({usage})" for rel, fn, line, usage in got if usage not in ("kw:prefix",) and usage != "expr"]
         ob.where = f"{got[0][0]}:{got[0][2]}" if got else ""
         if bad:
-            ob.status, ob.detail = REFUTED, f"read outside the documented effect: {bad}"
+            # no counterexample exists for a mere read: the frame contract does not cover this unit -> undecided (exit 2);
+            # an actual change of effect is caught by the local effect contracts
+            ob.status, ob.detail = UNDECIDED, f"read outside the documented units (the frame contract does not cover it): {bad}"
         else:
             ob.status, ob.detail = PROVED, f"{len(got)} read site(s): {sorted({(r + ':' + f) if f else r for r, f, _, _ in got})}"
         rep.add(ob)
